@@ -6,6 +6,7 @@ import (
 
 	"github.com/smart-core-os/sc-api/go/traits"
 	"github.com/smart-core-os/sc-golang/pkg/resource"
+	"google.golang.org/protobuf/proto"
 )
 
 type Model struct {
@@ -57,7 +58,7 @@ func (m *Model) PullBrightness(ctx context.Context, opts ...resource.ReadOption)
 func (m *Model) ListPresets() []*traits.LightPreset {
 	var res []*traits.LightPreset
 	for _, p := range m.presets {
-		res = append(res, p.LightPreset)
+		res = append(res, proto.Clone(p.LightPreset).(*traits.LightPreset))
 	}
 	return res
 }
@@ -69,7 +70,8 @@ func (m *Model) setLevelFromPreset(b *traits.Brightness) bool {
 	for _, p := range m.presets {
 		if p.Name == b.GetPreset().GetName() {
 			b.LevelPercent = p.levelPercent
-			b.Preset = p.LightPreset // sets the title if needed
+			// sets the title if needed; a copy, so that neither the caller nor the write can edit the model's own preset
+			b.Preset = proto.Clone(p.LightPreset).(*traits.LightPreset)
 			return true
 		}
 	}
